@@ -279,8 +279,8 @@ func (e *SpecEnv) equal(a, b Val) string {
 	if strings.HasPrefix(a.S, "Slice_") && a.S == b.S {
 		id := sortId(sliceElemSortOf(a.S))
 		vn := "k$q" + fmt.Sprint(e.x.nextQ())
-		return fmt.Sprintf("(and (= (slen_%s %s) (slen_%s %s)) (forall ((%s Int)) (=> (and (<= 0 %s) (< %s (slen_%s %s))) (= (select (sarr_%s %s) %s) (select (sarr_%s %s) %s)))))",
-			id, a.T, id, b.T, vn, vn, vn, id, a.T, id, a.T, vn, id, b.T, vn)
+		return fmt.Sprintf("(and (= (slen_%s %s) (slen_%s %s)) (forall ((%s Int)) (! (=> (and (<= 0 %s) (< %s (slen_%s %s))) (= (select (sarr_%s %s) %s) (select (sarr_%s %s) %s))) :pattern ((select (sarr_%s %s) %s)) :pattern ((select (sarr_%s %s) %s)))))",
+			id, a.T, id, b.T, vn, vn, vn, id, a.T, id, a.T, vn, id, b.T, vn, id, a.T, vn, id, b.T, vn)
 	}
 	// nil compared with slice
 	if strings.HasPrefix(a.S, "Slice_") && b.T == "0" && b.S == "Int" {
